@@ -24,6 +24,13 @@ HISTORIES = [
     ("append", BASE, {"pre": PRE, "body": [("append", "A", "inbox", ["Flagged"], 0)]}, infl("Append", dst="inbox", msgid=6), {}),
     ("store", BASE, {"pre": PRE, "body": [("store", "A", [[1, S]], "+", ["Answered"], False, False)]},
      infl("Store", src="inbox", set_=[[1, S]], flags=["Answered"], mode="+"), {}),
+    # flag changes that only move messages between sequences that already exist (nothing new to create)
+    ("store_existing", BASE + [("store", "A", [[1, 1]], "-", ["Seen"], False, False), ("store", "A", [[3, 3]], "+", ["Seen"], False, False)],
+     {"pre": PRE, "body": [("store", "A", [[1, 1]], "+", ["Seen"], False, False)]},
+     infl("Store", src="inbox", set_=[[1, 1]], flags=["Seen"], mode="+"), {}),
+    ("store_existing_minus", BASE, {"pre": PRE + [("store", "A", [[2, 2]], "+", ["Seen"], False, False)],
+                                    "body": [("store", "A", [[1, 1]], "-", ["Seen"], False, False)]},
+     infl("Store", src="inbox", set_=[[1, 1]], flags=["Seen"], mode="-"), {}),
     ("fetch_body", BASE, {"pre": PRE, "body": [("fetchbody", "A", [[2, 3]], False)]}, infl("Fetch", src="inbox", set_=[[2, 3]]), {}),
     ("copy", BASE, {"pre": PRE, "body": [("copy", "A", [[1, 3]], "b", False)]}, infl("Copy", src="inbox", dst="b", set_=[[1, 3]]), {}),
     ("move", BASE, {"pre": PRE, "body": [("move", "A", [[1, 1], [3, 3]], "b", True)]},
@@ -118,7 +125,7 @@ def fn(ck, a):
         for name, _, n, err in counts:
             if err:
                 raise RuntimeError(f"crash harness failed for {name}: {err}")
-            ks = list(range(1, n + 1))
+            ks = list(range(1, n + 2))      # n + 1: power off right after the last acknowledgement
             if not thorough and n > 90:       # quick: every third point of very long steps (first start-up)
                 ks = ks[ck.seed % 3::3]
             h = byname[name]
@@ -141,7 +148,7 @@ def fn(ck, a):
                 raise RuntimeError(f"crash harness failed for {name}: {err}")
             npoints[name] = n
             for e in exps:
-                if not e["killed"]:
+                if not e["killed"] and not e.get("end"):
                     continue      # the point was not reached in this run (fewer points than counted)
                 recs.append(to_record(name, e, infs[name]))
                 ck.note_case((name, e["point"][0], e["obs"].get("started")))
